@@ -115,6 +115,12 @@ var mgWants = []mgWant{
 	{"internal/run/test_runner.go", "", "NewRun", "", "run_NewRun"},
 	{"internal/workers/active_scenario.go", "", "NewActiveScenario", "", "active_New"},
 	{"internal/workers/active_scenario.go", "ActiveScenario", "Teardown", "", "active_Teardown"},
+	{"internal/trigger/constant/constant_rate.go", "", "CalculateConstantRate", "", "calc_constant"},
+	{"internal/trigger/staged/staged_rate.go", "", "CalculateStagedRate", "", "calc_staged"},
+	{"internal/trigger/ramp/ramp_rate.go", "", "CalculateRampRate", "", "calc_ramp"},
+	{"internal/trigger/api/iteration_distribution.go", "", "NewDistribution", "", "api_NewDistribution"},
+	{"internal/trigger/api/iteration_distribution.go", "", "withRegularDistribution", "", "dist_regular_outer"},
+	{"internal/trigger/api/iteration_distribution.go", "", "withRandomDistribution", "", "dist_random_outer"},
 	{"pkg/f1/f1.go", "F1", "execute", "", "f1_execute"},
 	{"pkg/f1/f1.go", "", "newSignalContext", "", "f1_newSignalContext"},
 	{"pkg/f1/f1.go", "", "newSignalContext", "#0", "f1_signalLoop"},
@@ -1320,6 +1326,8 @@ func (c *mgCtx) stmt(s ast.Stmt) string {
 				}
 			}
 			return "(.ret2 " + c.expr(x.Results[0]) + " " + c.expr(x.Results[1]) + ")"
+		case 3:
+			return "(.ret3 " + c.expr(x.Results[0]) + " " + c.expr(x.Results[1]) + " " + c.expr(x.Results[2]) + ")"
 		}
 		return c.unsupportedS(s)
 	}
